@@ -15,15 +15,23 @@ var VerifHarnesses = map[string]func(*verifrt.T){
 	"H_TB_nested":  H_TB_nested,
 	"H_TB_rec":     H_TB_rec,
 	"H_TB_iface":   H_TB_iface,
+	"H_TB_tags":    H_TB_tags,
+	"H_TB_deep":    H_TB_deep,
 }
 
 // VerifSetup warms the opcode caches once per engine worker (the compiler runs
 // concretely on the type tokens; the values stay symbolic in the harnesses).
 func VerifSetup() {
-	for _, v := range []interface{}{&vtScalars{}, vtScalars{}, &vtNested{}, &vtRec{}, &vtIface{}, vtInner{}, &vtInner{}} {
+	for _, v := range []interface{}{&vtScalars{}, vtScalars{}, &vtNested{}, &vtRec{}, &vtIface{}, vtInner{}, &vtInner{}, &vsT{}, &vtTags{}, vtTags{}, &vtTop{}, vtTop{}, &vtIface2{}} {
 		Marshal(v)
 		MarshalIndent(v, "", " ")
 	}
+	// decoder side: compile the decoders of the harness target types once
+	Unmarshal([]byte(`{}`), &vkA{})
+	Unmarshal([]byte(`{}`), &vkB{})
+	Unmarshal([]byte(`{}`), &vaT{})
+	Unmarshal([]byte(`{}`), &vsT{})
+	Unmarshal([]byte(`{}`), &vtScalars{})
 }
 
 // smallInt: a symbolic integer in [-9,9] (integer formatting itself is C16's
@@ -364,4 +372,202 @@ func H_TB_iface(t *verifrt.T) {
 	b = refInt(b, int64(v.C))
 	b = append(b, '}')
 	checkMarshal(t, v, b)
+}
+
+// ---------------------------------------------------------------- tag / position combinations
+
+// boundary integers are ENUMERATED concrete values (printing them is C16's
+// subject; what matters here is the emptiness test on the masked width)
+var vtI16 = []int16{0, 1, -1, 256, -256, -32768} // quick tier uses the first NI16
+var vtU16 = []uint16{0, 1, 256, 0xff00}
+
+type vtTags struct {
+	First []int8  `json:"first,omitempty"`
+	A     int16   `json:"a,omitempty"`
+	B     uint16  `json:"b,omitempty,string"`
+	M     []int8  `json:"m,omitempty"`
+	PS    *int8   `json:"ps,omitempty,string"`
+	S     string  `json:"s,omitempty"`
+	PP    **int8  `json:"pp"`
+	Last  *int16  `json:"last,omitempty,string"`
+}
+
+func symSlice(t *verifrt.T, name string) []int8 {
+	switch t.Choice(name, 3) {
+	case 1:
+		return []int8{}
+	case 2:
+		return []int8{int8(smallInt(t, name+"0"))}
+	}
+	return nil
+}
+
+func refInt8s(b []byte, s []int8) []byte {
+	b = append(b, '[')
+	for i, x := range s {
+		if i > 0 {
+			b = append(b, ',')
+		}
+		b = refInt(b, int64(x))
+	}
+	return append(b, ']')
+}
+
+func refTags(v *vtTags) []byte {
+	b := []byte{'{'}
+	sep := func() {
+		if len(b) > 1 {
+			b = append(b, ',')
+		}
+	}
+	if len(v.First) > 0 {
+		sep()
+		b = append(b, `"first":`...)
+		b = refInt8s(b, v.First)
+	}
+	if v.A != 0 {
+		sep()
+		b = append(b, `"a":`...)
+		b = refInt(b, int64(v.A))
+	}
+	if v.B != 0 {
+		sep()
+		b = append(b, `"b":"`...)
+		b = refUint(b, uint64(v.B))
+		b = append(b, '"')
+	}
+	if len(v.M) > 0 {
+		sep()
+		b = append(b, `"m":`...)
+		b = refInt8s(b, v.M)
+	}
+	if v.PS != nil {
+		sep()
+		b = append(b, `"ps":"`...)
+		b = refInt(b, int64(*v.PS))
+		b = append(b, '"')
+	}
+	if v.S != "" {
+		sep()
+		b = append(b, `"s":`...)
+		b = refStr(b, v.S)
+	}
+	sep()
+	b = append(b, `"pp":`...)
+	if v.PP == nil || *v.PP == nil {
+		b = append(b, "null"...)
+	} else {
+		b = refInt(b, int64(**v.PP))
+	}
+	if v.Last != nil {
+		sep()
+		b = append(b, `"last":"`...)
+		b = refInt(b, int64(*v.Last))
+		b = append(b, '"')
+	}
+	return append(b, '}')
+}
+
+func H_TB_tags(t *verifrt.T) {
+	v := &vtTags{First: symSlice(t, "first"), A: vtI16[t.Choice("a", t.Param("NI16"))], B: vtU16[t.Choice("b", t.Param("NU16"))],
+		M: symSlice(t, "m"), S: plainString(t, "s", 1)}
+	if t.Choice("ps", 2) == 1 {
+		x := int8(smallInt(t, "psv"))
+		v.PS = &x
+	}
+	switch t.Choice("pp", 3) {
+	case 1:
+		var inner *int8
+		v.PP = &inner
+	case 2:
+		x := int8(smallInt(t, "ppv"))
+		inner := &x
+		v.PP = &inner
+	}
+	if t.Choice("last", 2) == 1 {
+		x := vtI16[1+t.Choice("lastv", 2)*2] // 1 or 256
+		v.Last = &x
+	}
+	ref := refTags(v)
+	if t.Choice("by-value", 2) == 1 {
+		checkMarshal(t, *v, ref)
+	} else {
+		checkMarshal(t, v, ref)
+	}
+}
+
+// ---------------------------------------------------------------- embedding depth and name conflicts, nested interfaces
+
+type VtBase struct {
+	ID  int `json:"ID"`
+	Rev int
+}
+
+type VtMid struct {
+	VtBase
+	Name string
+}
+
+type vtTop struct {
+	ID int
+	VtMid
+	Extra *VtBase `json:"extra,omitempty"`
+}
+
+type vtIface2 struct {
+	A interface{} `json:"a"`
+	L []interface{}
+}
+
+func H_TB_deep(t *verifrt.T) {
+	switch t.Choice("shape", 2) {
+	case 0:
+		v := &vtTop{ID: int(smallInt(t, "id"))}
+		v.VtMid.VtBase.ID = int(smallInt(t, "bid"))
+		v.Rev = int(smallInt(t, "rev"))
+		v.Name = plainString(t, "name", 1)
+		b := []byte(`{"ID":`)
+		b = refInt(b, int64(v.ID))
+		b = append(b, `,"Rev":`...)
+		b = refInt(b, int64(v.Rev))
+		b = append(b, `,"Name":`...)
+		b = refStr(b, v.Name)
+		if t.Choice("extra", 2) == 1 {
+			v.Extra = &VtBase{ID: int(smallInt(t, "eid")), Rev: 2}
+			b = append(b, `,"extra":{"ID":`...)
+			b = refInt(b, int64(v.Extra.ID))
+			b = append(b, `,"Rev":2}`...)
+		}
+		b = append(b, '}')
+		if t.Choice("by-value", 2) == 1 {
+			checkMarshal(t, *v, b)
+		} else {
+			checkMarshal(t, v, b)
+		}
+	case 1:
+		// interface{} inside interface{}: struct and slice payloads two levels down
+		in := symInner(t, "in")
+		inner := vtIface{A: in, C: int(smallInt(t, "c"))}
+		v := &vtIface2{A: inner}
+		b := []byte(`{"a":{"a":`)
+		b = refInner(b, &in)
+		b = append(b, `,"c":`...)
+		b = refInt(b, int64(inner.C))
+		b = append(b, `},"L":`...)
+		switch t.Choice("l", 3) {
+		case 0:
+			b = append(b, "null"...)
+		case 1:
+			v.L = []interface{}{}
+			b = append(b, "[]"...)
+		case 2:
+			x := int(smallInt(t, "l0"))
+			v.L = []interface{}{[]interface{}{[]int{x}}, nil}
+			b = append(b, `[[[`...)
+			b = refInt(b, int64(x))
+			b = append(b, `]],null]`...)
+		}
+		b = append(b, '}')
+		checkMarshal(t, v, b)
+	}
 }
